@@ -405,8 +405,10 @@ CACHE_CLASSES = [
 ]
 
 def _raw_neutral(i):
+    # the finding is about what a later reader is served: that part of the check is switched off, what the writing
+    # call itself returns is still checked
     o = copy.deepcopy(i)
-    o["flavour"] = "action"
+    o["skipReader"] = True
     return o
 
 
